@@ -53,3 +53,34 @@ fn k14_first_line_two_tokens() {
     std::mem::forget(r);
     std::mem::forget(doc);
 }
+
+/// three tokens of one byte each: the payload offset has to advance token by token
+#[kani::proof]
+#[kani::unwind(8)]
+fn k14_first_line_three_tokens() {
+    let b: [u8; 3] = kani::any();
+    kani::assume(b[0] < 128 && b[1] < 128 && b[2] < 128);
+    let mut v = Vec::with_capacity(3);
+    v.push(b[0]);
+    v.push(b[1]);
+    v.push(b[2]);
+    let payload = unsafe { String::from_utf8_unchecked(v) };
+    let mut tokens = Vec::with_capacity(3);
+    tokens.push(Token::Text { bytes: 1, style: Style::Text });
+    tokens.push(Token::Text { bytes: 1, style: Style::Literal });
+    tokens.push(Token::Text { bytes: 1, style: Style::Text });
+    let doc = Doc { payload, tokens };
+    let r = doc.first_line().unwrap();
+    let mut n = 0;
+    while n < 3 && b[n] != b'\n' {
+        n += 1;
+    }
+    let out = r.payload.as_bytes();
+    assert!(out.len() == n);
+    if n > 0 { assert!(out[0] == b[0]); }
+    if n > 1 { assert!(out[1] == b[1]); }
+    if n > 2 { assert!(out[2] == b[2]); }
+    kani::cover!(n == 3);
+    std::mem::forget(r);
+    std::mem::forget(doc);
+}
